@@ -11,7 +11,8 @@ Definition sv (port : Z) (r : role) : server := {| sv_host := h1; sv_port := por
 Definition usr (name : str) (size : Z) : user :=
   {| u_name := name; u_password := true; u_pool_size := size; u_min_pool_size := None;
      u_connect_timeout := None; u_idle_timeout := None; u_server_lifetime := None;
-     u_pool_mode := None; u_statement_timeout := 0 |}.
+     u_pool_mode := None; u_statement_timeout := 0;
+     u_auth_type := AuthMD5; u_server_username := false; u_server_password := false |}.
 Definition mkpool (shs : list (str * shard)) (us : list (str * user)) (ds : dshard) (dr : str) : pool :=
   {| p_name := [100; 98]; p_default_role := dr; p_default_shard := ds;
      p_parser := false; p_rw_split := false; p_plugins := None; p_pool_mode := Transaction; p_auto_key := None;
@@ -50,6 +51,20 @@ Theorem c15_built_settings : forall c pools, accept c = true -> small c -> typed
                settings_ok c p (snd ku) bp.
 Proof. exact built_settings. Qed.
 Print Assumptions c15_built_settings.
+
+(** Whatever auth_type says about the client side, every built pool has a secret to present to
+    a server that asks for one: server_password, the user's password, or a fully configured
+    auth_query (own or inherited from [general]). *)
+Theorem c15_built_has_credentials : forall c pools, accept c = true -> small c -> typed c -> build c = Built pools ->
+  forall bp, In bp pools -> exists p, In p (c_pools c) /\ bp_db bp = p_name p /\ has_secret (fill_pool c p) (bp_user_cfg bp) = true.
+Proof. exact built_secret. Qed.
+Print Assumptions c15_built_has_credentials.
+
+Theorem c15_rejects_trust_without_secret : forall c p ku, In p (c_pools c) -> In ku (p_users p) ->
+  u_auth_type (snd ku) = AuthTrust -> u_password (snd ku) = false ->
+  is_auth_query_configured (fill_pool c p) = false -> accept c = false.
+Proof. exact reject_trust_without_secret. Qed.
+Print Assumptions c15_rejects_trust_without_secret.
 
 (** tls_certificate / tls_private_key only add their own conditions: with a loadable pair (or
     without a certificate) the verdict is the verdict of the same file without them — in
@@ -297,7 +312,8 @@ Definition ex_settings : config :=
   let u1 := usr [117] 5 in
   let u2 := {| u_name := [118]; u_password := true; u_pool_size := 7; u_min_pool_size := Some 2;
                u_connect_timeout := Some 20; u_idle_timeout := None; u_server_lifetime := Some 9;
-               u_pool_mode := Some Session; u_statement_timeout := 77 |} in
+               u_pool_mode := Some Session; u_statement_timeout := 77;
+               u_auth_type := AuthTrust; u_server_username := true; u_server_password := true |} in
   {| g_auth_query := false; g_auth_user := false; g_auth_password := false;
      g_connect_timeout := 1000; g_idle_timeout := 600000; g_server_lifetime := 3600000;
      g_tls_cert := Some LoadSome; g_tls_key := Some LoadSome; g_plugins := Some gplug;
@@ -314,7 +330,7 @@ Example ex_settings_built :
   | Built [a1; a2; b1] =>
       map settings_t [a1; a2; b1] =
       [ (Transaction, Some (plug_t pplug), user_t (usr [117] 5), (Some [116; 46; 105; 100], true, false), Some (5, None, (300, 400, 3600000)));
-        (Session, Some (plug_t pplug), ([118], 7, Some 2, (Some Session, 77), (Some 20, None, Some 9)), (Some [116; 46; 105; 100], true, false), Some (7, Some 2, (20, 400, 9)));
+        (Session, Some (plug_t pplug), ([118], 7, Some 2, (Some Session, 77), (Some 20, None, Some 9), (AuthTrust, true, true, true)), (Some [116; 46; 105; 100], true, false), Some (7, Some 2, (20, 400, 9)));
         (Transaction, Some (plug_t gplug), user_t (usr [117] 5), (None, false, false), Some (5, None, (1000, 600000, 3600000))) ]
   | _ => False
   end.
@@ -336,6 +352,15 @@ Example regress_tls_empty_files :
   accept (c LoadSome LoadSome) = true /\ accept (c LoadEmpty LoadEmpty) = false /\
   accept (c LoadSome LoadEmpty) = false /\ accept (c LoadEmpty LoadSome) = false /\ accept (c LoadSome LoadErr) = false.
 Proof. vm_compute. repeat split; reflexivity. Qed.
+
+Example regress_trust_user_without_password :
+  accept (mkcfg [mkpool [one [48] 1]
+                        [([48], {| u_name := [117]; u_password := false; u_pool_size := 5; u_min_pool_size := None;
+                                   u_connect_timeout := None; u_idle_timeout := None; u_server_lifetime := None;
+                                   u_pool_mode := None; u_statement_timeout := 0;
+                                   u_auth_type := AuthTrust; u_server_username := false; u_server_password := false |})]
+                        (DShard 0) s_any]) = false.
+Proof. vm_compute. reflexivity. Qed.
 
 (* spellings *)
 Example spellings :
